@@ -261,7 +261,7 @@ def build(hist, reconnect=True):
                     break
                 cb()
     try:
-        sc.run_phase([("main", main)], timeout=30)
+        sc.run_phase([("main", main)], timeout=600)
         for ev in hist:
             apply_event(s, ev)
             s.applied.append(ev)
@@ -290,37 +290,37 @@ def apply_event(s, ev):
     if kind == "connect":
         w.connect_mode = ev[1]
         w.cmd_connect = True
-        sc.run_phase([], timeout=30)
+        sc.run_phase([], timeout=600)
     elif kind == "success":
         server_stanza(H.SUCCESS)
-        sc.run_phase([], timeout=30)
+        sc.run_phase([], timeout=600)
     elif kind == "failure":
         server_stanza(ProtocolTreeNode("failure", {"reason": "401"}))
-        sc.run_phase([], timeout=30)
+        sc.run_phase([], timeout=600)
     elif kind == "stream_error":
         children = [ProtocolTreeNode(ev[1])]
         if ev[1] == "conflict":
             children.append(ProtocolTreeNode("text", data=b"Replaced by new connection"))
         server_stanza(ProtocolTreeNode("stream:error", {}, children))
-        sc.run_phase([], timeout=30)
+        sc.run_phase([], timeout=600)
     elif kind == "peer_close":
         w.peer_close[i] = True
-        sc.run_phase([], timeout=30)
+        sc.run_phase([], timeout=600)
     elif kind == "disconnect_req":
-        sc.run_phase([("appthread", lambda: w.app.disconnect())], timeout=30)
+        sc.run_phase([("appthread", lambda: w.app.disconnect())], timeout=600)
     elif kind == "tick":
         sc.tick(1)
-        sc.run_phase([], timeout=30)
+        sc.run_phase([], timeout=600)
     elif kind == "pong":
         ids = outstanding_pings(w, i)
         if ids:
             server_stanza(ProtocolTreeNode("iq", {"type": "result", "id": ids[0], "from": "s.whatsapp.net"}))
-        sc.run_phase([], timeout=30)
+        sc.run_phase([], timeout=600)
     elif kind == "late_socket_error":
         # a second error report of a dispatcher whose connection is already down (e.g. the reader and a writer
         # of the socket dispatcher both hit the closed socket)
         d = w.dispatchers[i]
-        sc.run_phase([("iothread", lambda: d.connectionCallbacks.onConnectionError(IOError("socket closed")))], timeout=30)
+        sc.run_phase([("iothread", lambda: d.connectionCallbacks.onConnectionError(IOError("socket closed")))], timeout=600)
     elif kind == "disconnect_then_send":
         def dts():
             w.app.disconnect()
@@ -329,7 +329,7 @@ def apply_event(s, ev):
                 w.obs.append(("app-send", "ok"))
             except Exception as e:
                 w.obs.append(("app-send", "raised", type(e).__name__))
-        sc.run_phase([("appthread", dts)], timeout=30)
+        sc.run_phase([("appthread", dts)], timeout=600)
     elif kind == "disconnect_then_connect":
         # the application (from its own thread) drops the connection and asks for a new one right away
         def dtc():
@@ -337,7 +337,7 @@ def apply_event(s, ev):
             w.connect_mode = "ok"
             w.obs.append(("app-connect",))
             w.app.connect()
-        sc.run_phase([("appthread", dtc)], timeout=30)
+        sc.run_phase([("appthread", dtc)], timeout=600)
     elif kind == "send":
         def snd():
             try:
@@ -345,7 +345,7 @@ def apply_event(s, ev):
                 w.obs.append(("app-send", "ok"))
             except Exception as e:
                 w.obs.append(("app-send", "raised", type(e).__name__))
-        sc.run_phase([("appthread", snd)], timeout=30)
+        sc.run_phase([("appthread", snd)], timeout=600)
 
 
 def client_stanzas(w, i):
